@@ -27,6 +27,14 @@ SITE = {
 PROPERTY_OBLIGATIONS = ("enclose", "empty", "exact", "pred", "okinv")
 
 
+def site_of(op):
+    if op == "lf:scale":
+        return "Interval::mul_assign"      # operator*(C, Linear_Form) is mul_assign per coefficient
+    if op.startswith("lf:"):
+        return "Linear_Form::operator" + ("+" if op == "lf:add" else "-")
+    return SITE.get(op.split(":")[0], op)
+
+
 def sign_class(tok):
     """P / N / S / Z / E / U for an interval token of the journal (how mul/div see it)."""
     if tok == "E":
@@ -145,7 +153,7 @@ def run(ctx):
             continue
         ev = events[eid]
         op = ev[2]
-        site = SITE.get(op.split(":")[0], op)
+        site = site_of(op)
         prop = [m for m in mism[eid] if m[0] in PROPERTY_OBLIGATIONS]
         for ob, tags, detail in mism[eid]:
             obligation_hist["%s %s %s" % (ev[1], op.split(":")[0], ob)] += 1
@@ -178,7 +186,7 @@ def run(ctx):
                        "type": ev[1], "I": ev[3], "J": ev[4], "real_result": ev[5],
                        "history": [" ".join(e) for e, _ in model_only[:50]], "driver": "pplv_c12",
                        "driver_args": ["--d3", "1" if d3 else "0", "--d12", "1" if d12 else "0"]},
-                      found_input=False, record={"site": SITE.get(ev[2].split(":")[0], ev[2]), "tags": ["model_correspondence"]})
+                      found_input=False, record={"site": site_of(ev[2]), "tags": ["model_correspondence"]})
 
     # ---- search in the MODEL (the repaired switches, i.e. what op_encloses / op_exact are about)
     rc, st_out, err = ctx.run([drv, "--selftest", "--d3", "0", "--d12", "0"], timeout=300)
@@ -284,7 +292,7 @@ def replay(ctx, path):
         if l.startswith("MISMATCH"):
             t = l.split(" ", 4)
             tags = [] if t[3] == "tags=-" else t[3][5:].split(",")
-            site = SITE.get(r["op"].split(":")[0], r["op"])
+            site = site_of(r["op"])
             k = ctx.match_known({"site": site, "tags": tags})
             if k is not None and t[2] in PROPERTY_OBLIGATIONS:
                 print("KNOWN-FINDING: property=%s %s [%s]" % (ctx.pid, k["what"], k["id"]))
